@@ -725,11 +725,10 @@ fn cases_for(tier_quick: bool, family: &str) -> u64 {
         "stack" => (48, 240),
         _ => (40_000, 400_000),
     };
-    if tier_quick {
-        q
-    } else {
-        t
-    }
+    // secondary engine builds (tools/engines/ovf.sh) run a fraction of the budget: VERIF_CASE_SCALE = percent
+    let scale = std::env::var("VERIF_CASE_SCALE").ok().and_then(|s| s.parse::<u64>().ok()).filter(|p| (1..=100).contains(p)).unwrap_or(100);
+    let n = if tier_quick { q } else { t };
+    (n * scale / 100).max(n.min(48))
 }
 
 // ---------------------------------------------------------------------------------------------
